@@ -30,6 +30,8 @@ pub struct IoError { pub k: u8 }
 // A-compress-01: compress()/decompress() are functions of (encoding, input bytes); decompress inverts compress.
 // (flate2 / zstd are FFI, outside both verifiers.)
 pub uninterp spec fn compress_spec(e: CompressionEncoding, s: Seq<u8>) -> Seq<u8>;
+// compress() may fail (io error); whether it does is a function of its input (A-compress-04)
+pub uninterp spec fn compress_ok(e: CompressionEncoding, s: Seq<u8>) -> bool;
 pub uninterp spec fn decompress_spec(e: CompressionEncoding, s: Seq<u8>) -> Option<Seq<u8>>;
 pub broadcast axiom fn axiom_decompress_compress(e: CompressionEncoding, s: Seq<u8>)
     ensures #[trigger] decompress_spec(e, compress_spec(e, s)) == Some(s);
@@ -51,6 +53,7 @@ pub fn decompress(settings: CompressionSettings, compressed_buf: &mut BytesMut, 
 pub fn compress(settings: CompressionSettings, decompressed_buf: &mut BytesMut, out_buf: &mut BytesMut, len: usize) -> (r: Result<(), IoError>)
     requires len <= old(decompressed_buf)@.len()
     ensures
+        r is Ok <==> compress_ok(settings.encoding, old(decompressed_buf)@.take(len as int)),
         r is Ok ==> final(out_buf)@ == old(out_buf)@ + compress_spec(settings.encoding, old(decompressed_buf)@.take(len as int)),
         final(out_buf)@.take(old(out_buf)@.len() as int) == old(out_buf)@, final(out_buf)@.len() >= old(out_buf)@.len(),
         final(out_buf).reserve_bound == old(out_buf).reserve_bound,
